@@ -302,14 +302,23 @@ Theorem C04_wtilde_data_vector_block : forall m (K : @kernel ROps) c, rectb m = 
   nth p (@dv_wtd ROps (@wt_data ROps (@native ROps m d) (@native ROps m s) K (unmasked m)) e P) 0 =
   sumR (map (fun i => nth i d 0 * Bm e c n i p / (nth i s 0 * nth i s 0)) (seq 0 n)).
 Proof. exact wt_data_vector_block_full. Qed.
-(* InversionImagingWTilde.data_vector = InversionImagingMapping.data_vector for every ordered list of mappers
-   (lists containing function lists -- branch _data_vector_func_list_and_mapper -- are correspondence-only) *)
+(* InversionImagingWTilde.data_vector = InversionImagingMapping.data_vector, entry by entry, for every ordered list of mappers AND
+   function lists (all three branches: _data_vector_x1_mapper, _data_vector_multi_mapper, _data_vector_func_list_and_mapper) *)
 Theorem C04_data_vector_wtilde_eq_mapping : forall m (K : @kernel ROps) c, rectb m = true -> @convolver_init ROps m K = Ok c ->
   forall objs (d s : list R) a, let n := length (unmasked m) in
-  forallb (@is_mapper ROps) objs = true -> (0 < n)%nat -> length d = n -> length s = n ->
+  (0 < n)%nat -> length d = n -> length s = n ->
   (forall i, (i < n)%nat -> nth i s 0 <> 0) -> (forall o, In o objs -> wf_obj c n o) -> (a < tp objs)%nat ->
   nth a (@D_wt ROps c m K objs d s) 0 = nth a (@D_mapping ROps c objs d s) 0.
-Proof. exact D_wt_eq_D_mapping_mappers_full. Qed.
+Proof. exact D_wt_eq_D_mapping_full. Qed.
+
+(* InversionImagingWTilde.mapped_reconstructed_data = InversionImagingMapping.mapped_reconstructed_data (equal lists) for every ordered
+   list of mappers and function lists and every reconstruction vector: blurring M r (convolve_no_blurring of the unique-mapping
+   product) is the same as (blurred M) r, object by object, summed in the same order *)
+Theorem C04_mapped_reconstructed_data_wtilde_eq_mapping : forall m (K : @kernel ROps) c, rectb m = true -> @convolver_init ROps m K = Ok c ->
+  forall objs (r : list R), let n := length (unmasked m) in
+  (forall o, In o objs -> wf_obj c n o) -> length r = tp objs ->
+  @mapped_wt ROps c objs n r = @mapped_mapping ROps c objs n r.
+Proof. exact mapped_wt_eq_mapped_mapping. Qed.
 
 (* ------------------------------------------------------------------ non-vacuity of the hypothesis sets *)
 (* hypotheses of C04_curvature_is_BT_Ninv_B: a 2x2 signed matrix, two different noise values, one unregularized parameter *)
@@ -366,13 +375,13 @@ Proof.
 Qed.
 
 (* the hypotheses of the hypothesis-free theorems: a 3x4 mask with two adjacent unmasked pixels, a signed 3x3 kernel whose
-   footprint stays inside the frame, two different positive noise values, one mapper with one source pixel *)
+   footprint stays inside the frame, two different positive noise values, a function list followed by a regularized mapper *)
 Definition ex2_m : mask := [[true; true; true; true]; [true; false; false; true]; [true; true; true; true]].
 Definition ex2_K : @kernel ROps := [[1; 2; 3]; [4; 5; 6]; [7; 8; -9]].
 Definition ex2_c : @convolver ROps :=
   Eval vm_compute in match @convolver_init ROps ex2_m ex2_K with Ok c => c | Raise _ => @Build_convolver ROps 0 [] [] [] end.
 Definition ex2_e : @enc ROps := @Build_enc ROps [[0%Z]; [0%Z]] [[1]; [1]] [1%nat; 1%nat].
-Definition ex2_objs : list (@lobj ROps) := [@LMapper ROps ex2_e [[1]; [1]] 1 false].
+Definition ex2_objs : list (@lobj ROps) := [@LFunc ROps [[3]; [4]] (Some [[5]; [-6]]) 1 false; @LMapper ROps ex2_e [[1]; [1]] 1 true].
 Example ex_full_hyps :
   let s := [1; 2] in let n := length (unmasked ex2_m) in
   rectb ex2_m = true /\ @convolver_init ROps ex2_m ex2_K = Ok ex2_c /\ (0 < n)%nat /\ length s = n /\
@@ -381,10 +390,12 @@ Proof.
   cbv zeta. split; [reflexivity|]. split; [vm_compute; reflexivity|]. change (length (unmasked ex2_m)) with 2%nat.
   split; [lia|]. split; [reflexivity|]. split.
   - intros [|[|i]] H; cbn; try lra; lia.
-  - intros o [<-|[]]. split; [cbn; lia|]. split; [apply (shape_convolve_matrix ex2_c [[1]; [1]])|].
-    split; [|split; [|repeat split]].
-    + intros [|[|d]] pw H; cbn in H; try (destruct H as [<-|[]]; cbn; lia). destruct d; contradiction.
-    + intros d p Hd Hp. assert (p = 0%nat) by lia. subst p. destruct d as [|[|d]]; [| |lia]; unfold E, hits; cbn; lra.
+  - intros o [<-|[<-|[]]].
+    + split; [cbn; lia|]. split; [|exact I]. cbn. split; [reflexivity|]. intros [|[|a]] H; try reflexivity; lia.
+    + split; [cbn; lia|]. split; [apply (shape_convolve_matrix ex2_c [[1]; [1]])|].
+      split; [|split; [|repeat split]].
+      * intros [|[|d]] pw H; cbn in H; try (destruct H as [<-|[]]; cbn; lia). destruct d; contradiction.
+      * intros d p Hd Hp. assert (p = 0%nat) by lia. subst p. destruct d as [|[|d]]; [| |lia]; unfold E, hits; cbn; lra.
 Qed.
 
 Print Assumptions C04_data_vector_is_BT_Ninv_d.
@@ -430,3 +441,4 @@ Print Assumptions C04_curvature_wtilde_eq_mapping.
 Print Assumptions C04_curvature_wtilde_symmetric.
 Print Assumptions C04_wtilde_data_vector_block.
 Print Assumptions C04_data_vector_wtilde_eq_mapping.
+Print Assumptions C04_mapped_reconstructed_data_wtilde_eq_mapping.
